@@ -112,6 +112,17 @@ def rule_classify(ctx):
 
 
 def rule_state(ctx):
+    # `match (a.is_empty(), b.is_empty(), c.is_empty()) {..}`: a test of `(x, y, z).0` is a test of `x`
+    from lib import tables as _t
+    old = _t.OPTS['tuple_proj']
+    _t.OPTS['tuple_proj'] = True
+    try:
+        _state(ctx)
+    finally:
+        _t.OPTS['tuple_proj'] = old
+
+
+def _state(ctx):
     b = ctx.body('validity::RouteValidity::state')
     for p in enumerate_paths(b, ctx.facts):
         cm = {}
